@@ -39,9 +39,14 @@ func FBP(reftree *tree.Tree, boottrees <-chan tree.Trees, cpus int, sup *Support
 		}
 	}
 	var wg sync.WaitGroup
+	var errmux sync.Mutex // protects err, which is set by the workers
 	for cpu := 0; cpu < cpus; cpu++ {
 		wg.Add(1)
 		go func(cpu int) {
+			// In any case (even after an error), we tell that
+			// this worker is done: otherwise the channel of
+			// found edges is never closed
+			defer wg.Done()
 			var inerr error
 			for treeV := range boottrees {
 				edgeIndex := tree.NewEdgeIndex(uint64(len(edges)*2), 0.75)
@@ -49,15 +54,21 @@ func FBP(reftree *tree.Tree, boottrees <-chan tree.Trees, cpus int, sup *Support
 					break
 				}
 				if treeV.Err != nil {
+					errmux.Lock()
 					err = treeV.Err
+					errmux.Unlock()
 					return
 				} else {
-					if inerr = treeV.Tree.ReinitIndexes(); err != nil {
+					if inerr = treeV.Tree.ReinitIndexes(); inerr != nil {
+						errmux.Lock()
 						err = inerr
+						errmux.Unlock()
 						return
 					}
-					if inerr = reftree.CompareTipIndexes(treeV.Tree); err != nil {
+					if inerr = reftree.CompareTipIndexes(treeV.Tree); inerr != nil {
+						errmux.Lock()
 						err = inerr
+						errmux.Unlock()
 						return
 					}
 					atomic.AddInt32(&ntrees, 1)
@@ -65,7 +76,9 @@ func FBP(reftree *tree.Tree, boottrees <-chan tree.Trees, cpus int, sup *Support
 					for i, e2 := range edges2 {
 						if !e2.Right().Tip() {
 							if inerr = edgeIndex.PutEdgeValue(e2, i, e2.Length()); inerr != nil {
+								errmux.Lock()
 								err = inerr
+								errmux.Unlock()
 								return
 							}
 						}
@@ -79,7 +92,6 @@ func FBP(reftree *tree.Tree, boottrees <-chan tree.Trees, cpus int, sup *Support
 				}
 				sup.IncrementProgress()
 			}
-			wg.Done()
 		}(cpu)
 	}
 
